@@ -127,7 +127,7 @@ func (w *c31World) Setup(s *dsim.Sim) {
 	t := s.Tape
 	w.strm = &c31Stream{s: s}
 	w.val = link_solicit.NewSolicitMountedStream(&c31Mounted{w.strm})
-	s.ArmFraction([]int{100, 100, 60, 0}[t.Draw(4, "arm-pct")], []string{"solicit/mounted/", "harness/stream-close"})
+	s.ArmFraction([]int{100, 100, 60, 0}[t.Draw(4, "arm-pct")], []string{"solicit/mounted/", "harness/stream-close", "go:link/solicit/"})
 	n := 2 + t.Draw(3, "tasks")
 	for i := 0; i < n; i++ {
 		tk := &c31Task{id: i}
